@@ -27,7 +27,7 @@ def cfg(tier):
 def bounds(tier):
     c = cfg(tier)
     return {'orders': [3, 5, 7], 'DIM': list(c['dims']), 'size pairs N1->N2': 'all of %s^2, both final overloads, with and without interleaved queries' % (list(c['sizes']),),
-            'size triples': len(c['triples']), 'partially shared re-updates': 'all 16 subsets of {durations, waypoints, start time, boundary state} kept from the previous problem, N in %s, both overloads' % (list(c['shareN']),),
+            'size triples': len(c['triples']), 'three-step histories': 'construct, re-update keeping any of the 16 input subsets (either overload), re-update again (either overload; fresh / all kept / durations kept / all but durations kept; thorough: all 16 subsets)', 'partially shared re-updates': 'all 16 subsets of {durations, waypoints, start time, boundary state} kept from the previous problem, N in %s, both overloads' % (list(c['shareN']),),
             'workspace histories': 'explicit workspace reused across (optimizer A N=3) -> (optimizer B N=2, other flags) -> (A again) and same-size/other-flags/other-problem sequences; built-in workspace across setInitState with another N; (order, DIM) %s' % [list(x) for x in c['ws']]}
 
 
@@ -50,6 +50,9 @@ def tasks(tier, seed):
                 quads = [[rq.choice(c['sizes']) for _ in range(4)] for _ in range(32)]
                 T.append({'name': 'quadruples o%d d%d' % (o, d), 'fn': 'run_hist', 'order': o, 'dim': d, 'hists': quads, 'seed': seed, 'timeout': 60})
             T.append({'name': 'shared o%d d%d' % (o, d), 'fn': 'run_share', 'order': o, 'dim': d, 'Ns': list(c['shareN']), 'seed': seed, 'timeout': 60})
+    for o in C.ORDERS:
+        for d in c['dims']:
+            T.append({'name': 'shared3 o%d d%d' % (o, d), 'fn': 'run_share3', 'order': o, 'dim': d, 'full': tier == 'thorough', 'seed': seed, 'timeout': 60})
     for (o, d) in c['ws']:
         T.append({'name': 'workspace o%d d%d' % (o, d), 'fn': 'run_ws', 'order': o, 'dim': d, 'seed': seed, 'timeout': 60})
     return T
@@ -229,6 +232,58 @@ def run_share(t):
                 sc = O.Scenario(ID, '%s N%d %s keep={%s}' % (t['name'], N, mode, ','.join(sorted(keep))), tu, s, timeout=t['timeout'])
                 compare_all(sc, sc.dag, 'r_', 'f_', 're-update keeping {%s}' % ','.join(sorted(keep)))
                 out.append(sc)
+    return out
+
+
+@C.run_scenarios
+def run_share3(t):
+    """three-step histories: construct (durations), update keeping a subset of the inputs (either overload), update again (either overload,
+    fresh or partly kept inputs) - the situation in which a 'did the durations change?' flag set by one overload is consumed by the other"""
+    o, d = t['order'], t['dim']
+    tu = build.spline_tu(o, d)
+    out = []
+    N = 2
+    masks3 = list(range(16)) if t['full'] else [0, 15, 1, 14]
+    for m2 in range(16):
+        for mode2 in ('dur', 'tp'):
+            for m3 in masks3:
+                for mode3 in ('dur', 'tp'):
+                    rng = C.rng_for(t['seed'], 'C10t', o, d, m2, mode2, m3, mode3)
+                    s = D.Script()
+                    s.var('tl', 0.21)
+                    s.var('tg', 0.83)
+                    up = mk_upstream(s, d, rng)
+                    probs = [C.Problem(s, 'abc'[i], o, d, N, rng) for i in range(3)]
+                    qs = [tp_names(s, 'abc'[i], N, rng) for i in range(3)]
+                    cur = {'h': probs[0].h, 'P': probs[0].flatP(), 't0': probs[0].t0, 'bc': probs[0].bcname, 'q': qs[0], 'mode': 'dur'}
+                    s.add('sp.new S dur', N, *cur['h'], N + 1, *cur['P'], cur['t0'], cur['bc'])
+                    for step, (mask, mode) in enumerate(((m2, mode2), (m3, mode3)), start=1):
+                        keep = {SHARE[i] for i in range(4) if (mask >> i) & 1}
+                        pr = probs[step]
+                        nxt = {'P': cur['P'] if 'P' in keep else pr.flatP(), 'bc': cur['bc'] if 'bc' in keep else pr.bcname, 'mode': mode}
+                        if mode == 'dur':
+                            nxt['h'] = cur['h'] if ('h' in keep and cur['mode'] == 'dur') else pr.h
+                            nxt['t0'] = cur['t0'] if ('t0' in keep and cur['mode'] == 'dur') else pr.t0
+                            nxt['q'] = qs[step]
+                        else:
+                            same_q = 'h' in keep and cur['mode'] == 'tp'
+                            nxt['q'] = cur['q'] if same_q else (([cur['q'][0]] + qs[step][1:]) if ('t0' in keep and cur['mode'] == 'tp') else qs[step])
+                            nxt['h'], nxt['t0'] = pr.h, pr.t0
+                        if step == 1 and (mask % 3 == 0):
+                            junk_queries(s, 'S', 'j%d' % step, probs[0], up, 'EG')
+                        for obj, cmd in (('S', 'sp.update'),) + ((('F', 'sp.new'),) if step == 2 else ()):
+                            if mode == 'dur':
+                                s.add(cmd, obj, 'dur', N, *nxt['h'], N + 1, *nxt['P'], nxt['t0'], nxt['bc'])
+                            else:
+                                s.add(cmd, obj, 'tp', N + 1, *nxt['q'], N + 1, *nxt['P'], nxt['bc'])
+                        cur = nxt
+                    fin = C.Problem.__new__(C.Problem)
+                    fin.N, fin.order = N, o
+                    queries(s, 'S', 'r_', fin, rng, up)
+                    queries(s, 'F', 'f_', fin, rng, up)
+                    sc = O.Scenario(ID, '%s step2=%s/%d step3=%s/%d' % (t['name'], mode2, m2, mode3, m3), tu, s, timeout=t['timeout'])
+                    compare_all(sc, sc.dag, 'r_', 'f_', 'three-step history (kept-input masks %d, %d; overloads %s, %s)' % (m2, m3, mode2, mode3))
+                    out.append(sc)
     return out
 
 
